@@ -527,7 +527,7 @@ def compare(rq, impl, model, ctx):
     return fs + compare_stream(rq, xs, H + Q, ti, tm, ctx, op)
 
 
-K_B = 256                        # class-B factor for values against the model (as in C08; worst observed ratio < 4)
+K_B = 16                         # class-B factor for values against the model (as in C08; worst observed ratio < 4)
 ATOL = Fraction(1, 2 ** 1000)    # underflow is not in the model
 
 
@@ -585,6 +585,13 @@ def compare_stream(rq, xs, ops, ti, tm, ctx, opname, tables=None):
                 bump(ctx, "value." + kind)
                 if ti[pi] == "V":
                     vs = [fl(ti[pi + 1]), fl(ti[pi + 2])]; pi += 3
+                    if pi < len(ti) and ti[pi] == "S":   # the same query at the unit prefactor, and the factor
+                        vunit, pf = fl(ti[pi + 1]), fl(ti[pi + 2]); pi += 3
+                        bump(ctx, "factor-exact")
+                        exp = pf * vunit
+                        if not (vs[0] == exp or (math.isnan(vs[0]) and math.isnan(exp))):
+                            out.append(fail("prop", "Set_Prefactor/Multiply: the answer is not exactly the factor times the unit-prefactor answer (%s)" % kind,
+                                            "step %d %s: factor %r x unit %r = %r, got %r" % (step, " ".join(o) if o else "", pf, vunit, exp, vs[0])))
                 elif ti[pi] == "F":
                     k = int(ti[pi + 1]); vs = [fl(t) for t in ti[pi + 2:pi + 2 + k]]; pi += 2 + k
                     bump(ctx, "final-query")
@@ -633,13 +640,20 @@ def oracle_only(rq, impl, ctx):
     out = []
     i = 0
     step = 0
+    last_v = None
     try:
         while i < len(ti):
             t = ti[i]
             if t == "U":
                 i += 1
+            elif t == "S":
+                vunit, pf = fl(ti[i + 1]), fl(ti[i + 2]); i += 3
+                if last_v is not None and not (last_v == pf * vunit or (math.isnan(last_v) and math.isnan(pf * vunit))):
+                    out.append(fail("prop", "Set_Prefactor/Multiply: the answer is not exactly the factor times the unit-prefactor answer", "step %d: %r x %r vs %r" % (step - 1, pf, vunit, last_v)))
+                continue
             elif t in ("L", "V"):
                 u, f = ti[i + 1], ti[i + 2]; i += 3
+                last_v = fl(u) if t == "V" else None
                 if u != f and not (u == "nan" and f == "nan"):
                     out.append(fail("prop", "answer of the used object differs from the answer of a new object", "step %d: %s vs %s" % (step, u, f)))
             elif t in ("FL", "F"):
